@@ -76,8 +76,10 @@ class C01(Check):
             if rng.random() < 0.25 and ev:       # truncate: client disappears
                 ev = ev[:rng.randrange(0, len(ev))]
             ch = [rng.randrange(1, bs + 3) for _ in range(rng.randrange(0, 12))]
+            # delivery does not depend on how long the server needs per datagram as long as the ACKs stay in time
+            proc = rng.choice([0, 0, 0, 1, 3])
             yield T.mk_case(content, ch, options=opts, retries=retries, wrap=rng.choice([0, 1, None]), events=ev,
-                            max_bs=max_bs)
+                            max_bs=max_bs, proc=proc)
         # (d) crossing block 65535: plain, and with duplicated / stale / future ACKs around the wrap
         for wrap in ((0, 1, None) if not quick else (None,)):
             nblocks = 65538
